@@ -901,3 +901,18 @@ func pskAbortRule(c *Ctx) {
 func init() {
 	round5Extras["C31"] = pskAbortRule
 }
+
+var moduleFuncNames map[string]bool
+
+// moduleHasFunc: is there still a function with this short canonical name anywhere in the module?
+func (w *World) moduleHasFunc(name string) bool {
+	if moduleFuncNames == nil {
+		moduleFuncNames = map[string]bool{}
+		for fn := range w.AllFuncs() {
+			if InModule(fn) {
+				moduleFuncNames[short(FuncName(fn))] = true
+			}
+		}
+	}
+	return moduleFuncNames[name]
+}
